@@ -8,6 +8,7 @@ import NumbersModel.Lemmas.TokenizerQuotes
 import NumbersModel.Model.TokenizerCfg
 import NumbersModel.Lemmas.FormulaAccept
 import NumbersModel.Props.C08
+import NumbersModel.Lemmas.TrTok
 namespace NumbersModel.Props.C18
 open NumbersModel NumbersModel.Tokenizer
 
@@ -126,3 +127,27 @@ example : (tokenize liveCfg "{1,'a-b';Table 1::'a-b':'c+d',\"x\"}+alpha:'a-b'".t
 example : (tokenize liveCfg "Bob'''s+1".toList).toOption = none := by decide +kernel
 
 end NumbersModel.Props.C18
+
+/-! ## The token-buffer methods translated from the Python source
+
+`Gen/TrTok.lean` is regenerated by `harness/py2lean.py` from `Tokenizer.assert_empty_token` / `Tokenizer.save_token` in the
+working tree on every check run, with `self.items` / `self.token` threaded as state variables.  The source keeps the pending
+token as a list of pieces, the model as their join; `Lemmas/TrTok.lean` proves the two methods refine `assertEmpty` /
+`saveToken` under the representation invariant `Rep` (join of the pieces, no empty piece). -/
+namespace NumbersModel.Props.C18.Src
+open NumbersModel NumbersModel.Tokenizer NumbersModel.Gen.T NumbersModel.Translated
+
+/-- a pending token makes `assert_empty_token` raise TokenizerError, an empty buffer lets it pass — as in the model. -/
+theorem src_assert_empty_token (pieces : List Text) (st : St) (h : Rep pieces st) :
+    assert_empty_token pieces = assertEmpty st := assert_empty_token_eq_model pieces st h
+
+/-- `save_token` never raises; it appends the pending token as ONE operand whose text is the join of the pieces (nothing
+    dropped, nothing split) and clears the buffer, exactly as the model's `saveToken`. -/
+theorem src_save_token (pieces : List Text) (st : St) (h : Rep pieces st) :
+    ∃ pieces', save_token st.items pieces = .ok ((), (saveToken st).items, pieces') ∧ Rep pieces' (saveToken st) :=
+  save_token_eq_model pieces st h
+
+example : save_token [] ["SUM".toList, "(".toList] = .ok ((), [makeOperand "SUM(".toList], []) := by decide +kernel
+example : assert_empty_token [['a']] = .error .TokenizerError ∧ assert_empty_token [] = .ok () := by decide
+
+end NumbersModel.Props.C18.Src
